@@ -42,7 +42,6 @@ def demo_desc():
         ],
         "configs": {"local": "LOCAL", "server": "SERVER"},
         "default_config": "local",
-        "use_key_patterns": False,
     }
 
 
@@ -59,7 +58,7 @@ def make_variant(v):
         return d
     rng = random.Random(derive(20, "variant", v))
     ops = ["rename_keys", "rename_levels", "rename_bases", "leaf_only", "separator", "folders", "vocab", "digits",
-           "third_base", "third_config", "insert_level", "remove_level", "swap_vocab", "key_patterns", "projects", "config_vocab", "leaf_per_base"]
+           "third_base", "third_config", "insert_level", "remove_level", "swap_vocab", "inline_patterns", "projects", "config_vocab", "leaf_per_base"]
     chosen = [o for o in ops if rng.random() < 0.35] or [rng.choice(ops)]
     d["transformations"] = chosen
     if "rename_keys" in chosen:
@@ -123,8 +122,11 @@ def make_variant(v):
         d["configs"]["backup"] = "BACKUP"
         if rng.random() < 0.3:
             d["default_config"] = "server"
-    if "key_patterns" in chosen:
-        d["use_key_patterns"] = True
+    # ("inline_patterns" is a placeholder draw kept for stable variant numbering: every generated package writes its
+    # value patterns inline in the templates and ships an empty key_patterns; the demo package itself exercises the
+    # key_patterns / pattern_replacing route in every other check)
+    chosen[:] = [c for c in chosen if c != "inline_patterns"] or ["rename_levels"]
+    d["transformations"] = chosen
     if "leaf_per_base" in chosen:
         # "a leaf key per basetype": the last basetype names its leaf key differently from the others
         d["basetypes"][-1]["leaf"] = "filetype"
